@@ -286,7 +286,7 @@ fn pool() -> Vec<Spec> {
     ]
 }
 
-const PAYLOAD_ALPHA: [&str; 11] = ["<", ">", "&", "'", "\"", "]", "-", "?", " ", "a", "é"];
+const PAYLOAD_ALPHA: [&str; 12] = ["<", ">", "&", "'", "\"", "]", "-", "?", " ", "a", "é", "\u{FEFF}"];
 
 fn payload(i: u64, max: u32) -> String {
     let mut d = Vec::new();
@@ -301,6 +301,8 @@ fn payload(i: u64, max: u32) -> String {
 enum Op {
     SetName(u8),
     Push(u8, u8),
+    /// push_attribute through the sibling conversions of `Attribute`: (&str, Cow<str>) borrowed / owned
+    PushCow(u8, bool),
     Extend,
     Clear,
     WithAttrs,
@@ -322,6 +324,7 @@ fn ops() -> Vec<Op> {
             v.push(Op::Push(k, x));
         }
     }
+    v.extend([Op::PushCow(0, false), Op::PushCow(1, true)]);
     v.extend([Op::Extend, Op::Clear, Op::WithAttrs, Op::ToOwned, Op::BorrowToOwned, Op::IntoOwned, Op::Borrow]);
     v
 }
@@ -388,6 +391,12 @@ fn apply_ops(mut e: BytesStart, mut name: String, mut attrs: Vec<(String, String
             Op::Push(k, v) => {
                 e.push_attribute((KEYS[k as usize], VALS[v as usize]));
                 attrs.push((KEYS[k as usize].to_string(), VALS[v as usize].to_string()));
+            }
+            Op::PushCow(k, owned) => {
+                let val = "\"<&'>";
+                let cow: std::borrow::Cow<str> = if owned { std::borrow::Cow::Owned(val.to_string()) } else { std::borrow::Cow::Borrowed(val) };
+                e.push_attribute((KEYS[k as usize], cow));
+                attrs.push((KEYS[k as usize].to_string(), val.to_string()));
             }
             Op::Extend => {
                 e.extend_attributes([("x", "1"), ("y", "<2>")]);
@@ -588,7 +597,7 @@ pub fn run(ctx: &Ctx) {
          --, ?, blanks, non-ASCII) built through the public constructors, written with Writer::write_event and read back with all checks \
          off; (b) every string up to length L over {< > & ' \" ] - ? space a é} as attribute value, text, CDATA (splitting \
          constructor) and comment payload; (c) the BytesStart edit machine: every sequence of up to 5/6 operations out of set_name x3, \
-         push_attribute x6, extend_attributes, clear_attributes, with_attributes, to_owned, borrow+to_owned, into_owned, with name() and \
+         push_attribute x6 (and x2 through the (&str, Cow<str>) conversion), extend_attributes, clear_attributes, with_attributes, to_owned, borrow+to_owned, into_owned, with name() and \
          attributes() compared with a (name, Vec<(k,v)>) model after EVERY step and the written tag re-read at the end; (d) ElementWriter: \
          every sequence of up to 3 with_attribute/with_attributes/new_line calls x 7 finishing calls x {no indent, 2 blanks, tab}, and the same calls through the asynchronous methods (write_*_async) over a scripted AsyncWrite with one Pending / one-byte short write at every call index and with one-byte writes throughout, which must give the same bytes; (e) \
          async writer: every sequence of up to 2 specs through write_event_async over a scripted AsyncWrite with every placement of up to \
